@@ -70,7 +70,7 @@ type faultCase struct {
 func c09Validator(c *vk.Ctx, rng *rand.Rand) int {
 	n := 0
 	for _, backend := range []string{"disk", "memory"} {
-		faults := []string{"corrupt-record", "swap-failed"}
+		faults := []string{"corrupt-record", "damaged-record", "swap-failed"}
 		if backend == "disk" {
 			faults = append(faults, "closed-underneath")
 		}
@@ -146,8 +146,13 @@ func c09One(c *vk.Ctx, fc faultCase, rng *rand.Rand) {
 	case "closed-underneath":
 		st.(*crlstore.LevelDbStore).Db.Close()
 	case "corrupt-record":
-		if err := corruptAllEntries(st, h.leaves["c2"].Cert.SerialNumber); err != nil {
+		if err := corruptAllEntries(st, h.leaves["c2"].Cert.SerialNumber, false); err != nil {
 			c.Infra("corrupt: %v", err)
+		}
+	case "damaged-record":
+		// one bit of the stored record flipped inside its serial: the value still decodes, but it is not what was stored
+		if err := corruptAllEntries(st, h.leaves["c2"].Cert.SerialNumber, true); err != nil {
+			c.Infra("damage: %v", err)
 		}
 	case "swap-failed":
 		// the next swap of the live store fails after its first step (old store closed)
@@ -177,9 +182,9 @@ func c09One(c *vk.Ctx, fc faultCase, rng *rand.Rand) {
 		if r.Verdict == "accept" {
 			c.Violation(sig, fmt.Sprintf("the CRL database was closed underneath the lookup and the handshake of %s was accepted (strict=%v)", fc.Cert, fc.Strict), rep)
 		}
-	case "corrupt-record":
+	case "corrupt-record", "damaged-record":
 		if listed && r.Verdict == "accept" {
-			c.Violation(sig, "the record of the listed serial is undecodable and the handshake was accepted", rep)
+			c.Violation(sig, "the record stored for the listed certificate is corrupted ("+fc.Fault+") and the handshake was accepted", rep)
 		}
 	case "swap-failed":
 		// either the complete previous list still answers (C08) or the lookup errors; the listed certificate is never accepted
@@ -196,8 +201,24 @@ func c09One(c *vk.Ctx, fc faultCase, rng *rand.Rand) {
 	}
 }
 
-// corruptAllEntries overwrites the record of the given serial with an undecodable value.
-func corruptAllEntries(st crlstore.CRLStore, serial *big.Int) error {
+// corruptAllEntries overwrites the record of the given serial with an undecodable value, or (decodable) with the same record
+// whose serial has one bit flipped.
+func corruptAllEntries(st crlstore.CRLStore, serial *big.Int, decodable bool) error {
+	bad := func(val []byte) []byte {
+		if !decodable {
+			return []byte{0x30, 0x03, 0x02}
+		}
+		rc := new(pkix.RevokedCertificate)
+		if _, err := asn1.Unmarshal(val, rc); err != nil {
+			return []byte{0x30, 0x03, 0x02}
+		}
+		rc.SerialNumber = new(big.Int).Xor(rc.SerialNumber, big.NewInt(1))
+		out, err := asn1.Marshal(*rc)
+		if err != nil {
+			return []byte{0x30, 0x03, 0x02}
+		}
+		return out
+	}
 	match := func(val []byte) bool {
 		rc := new(pkix.RevokedCertificate)
 		if _, err := asn1.Unmarshal(val, rc); err != nil {
@@ -211,13 +232,13 @@ func corruptAllEntries(st crlstore.CRLStore, serial *big.Int) error {
 		defer it.Release()
 		for it.Next() {
 			if match(it.Value()) {
-				return s.Db.Put(append([]byte(nil), it.Key()...), []byte{0x30, 0x03, 0x02}, nil)
+				return s.Db.Put(append([]byte(nil), it.Key()...), bad(append([]byte(nil), it.Value()...)), nil)
 			}
 		}
 	case *crlstore.MapStore:
 		for k, v := range s.Map {
 			if match(v) {
-				s.Map[k] = []byte{0x30, 0x03, 0x02}
+				s.Map[k] = bad(v)
 				return nil
 			}
 		}
